@@ -558,4 +558,9 @@ theorem C14_tie_fn_freshOCSP (K now : Int) (r : CM.OCSP.Resp)
         have e : r.thisUpdate + K + (nu - r.thisUpdate).tdiv 2 = (r.thisUpdate + (nu - r.thisUpdate).tdiv 2) + K := by omega
         rw [e, hbefore]
 
+/-- **the model's `normASCII` IS the translated `normalizedName`** (`strings.ToLower(strings.TrimSpace(..))`;
+lower-casing on ASCII — for other input the harness hands the model Go's own result) -/
+theorem C03_tie_fn_normalizedName (serverName : Str) :
+    CM.Gen.Fn.normalizedName serverName = CM.Lookup.normASCII serverName := rfl
+
 end CM.Tie.Fn
